@@ -162,7 +162,13 @@ func (n *Number) AsNum() (num any) {
 			num = f
 		} else {
 			n.FillBig()
-			num, _ = strconv.ParseFloat(string(n.BigBuf), 64)
+			f, err := strconv.ParseFloat(string(n.BigBuf), 64)
+			if err != nil && n.Conv != ojg.NumConvFloat64 {
+				// Out of the float64 range. BigBuf is now filled so
+				// the number is kept as text instead of +Inf or -Inf.
+				return n.AsNum()
+			}
+			num = f
 		}
 	}
 	return
@@ -193,6 +199,11 @@ func (n *Number) AsNode() (num Node) {
 				x = -x
 			}
 			f *= math.Pow10(x)
+		}
+		if math.IsInf(f, 0) {
+			// Out of the float64 range, keep the number as text.
+			n.FillBig()
+			return Big(n.BigBuf)
 		}
 		num = Float(f)
 	}
